@@ -21,7 +21,7 @@ BUILTINS = {
     "len", "range", "sorted", "set", "list", "tuple", "sum", "min", "max", "abs", "int", "float", "round",
     "isinstance", "enumerate", "zip", "reversed", "any", "all", "dict", "str", "print", "oset", "bool",
     "ceil", "floor", "next", "iter", "frozenset", "type", "id", "repr", "getattr", "hasattr", "fzs",
-    "deepcopy", "super",
+    "deepcopy", "super", "setattr",
 }
 
 
@@ -169,6 +169,7 @@ def comprehension(ex, node, kind, env=None):
         ex.env = inner
         nhyps = len(ex.hyps)
         ndec = ex.dpos
+        done0, mat0 = set(ex.seq_mem_done), dict(ex.materialized)
         ex.in_comprehension += 1
         rng = getattr(src, "range", None) if isinstance(g.target, ast.Name) else None
         if rng is not None:
@@ -191,8 +192,13 @@ def comprehension(ex, node, kind, env=None):
         for f in [f for f in body_facts if f.get_id() in ex.fresh_facts]:
             ex.assume(f, fresh=True)
         body_facts = [f for f in body_facts if f.get_id() not in ex.fresh_facts]
+        bv = v if rng is not None else k
+        # facts that do not mention the bound variable are facts about the enclosing state
+        for f in [f for f in body_facts if not _mentions(f, bv)]:
+            ex.assume(z3.Implies(src.n > 0, f))  # (the body only runs when the source is non-empty)
+        ex.seq_mem_done, ex.materialized = set(done0), dict(mat0)  # definitional facts are re-stated on later use
+        body_facts = [f for f in body_facts if _mentions(f, bv)]
         if body_facts:
-            bv = v if rng is not None else k
             ex.assume(V.qforall([bv], z3.Implies(range_fact, z3.And(*body_facts))))
     finally:
         ex.in_comprehension = max(0, ex.in_comprehension - 1)
@@ -233,6 +239,8 @@ def comprehension(ex, node, kind, env=None):
             return seq_to_set(ex, r)
         return r
     cond = z3.And(*conds)
+    if kind == "list" and not (len(flatten(shape, elt)) == 1 and getattr(src, "strictly_increasing", False)):
+        return filtered_subsequence(ex, src, k, cond, shape, elt)
     (t,) = flatten(shape, elt)
     if kind == "set":
         return define_set(ex, shape, lambda x: z3.Exists([k], z3.And(k >= 0, k < src.n, cond, t == x)))
@@ -244,6 +252,85 @@ def comprehension(ex, node, kind, env=None):
     r = set_enumeration(ex, member, sorted_=True)
     r.strictly_increasing = True
     return r
+
+
+def filtered_subsequence(ex, src, k, cond, shape, elt):
+    """[elt(k) for k-th item of src if cond(k)]: the subsequence of the kept items, in source order.
+    Characterised completely by a strictly increasing index map `sidx` (result position -> source
+    position) whose image is exactly the set of source positions that satisfy the filter (`pos` is
+    its inverse there)."""
+    src = ex.materialize(src)
+    terms = flatten(shape, elt)
+    sidx = z3.Function(fresh_name("flt.src"), z3.IntSort(), z3.IntSort())
+    pos = z3.Function(fresh_name("flt.pos"), z3.IntSort(), z3.IntSort())
+    n = z3.Const(fresh_name("flt.len"), z3.IntSort())
+    p, q, j = (z3.Const(fresh_name(x), z3.IntSort()) for x in ("fp", "fq", "fj"))
+    at = lambda t, idx: z3.substitute(t, (k, idx))
+    arrs = [z3.Const(fresh_name("flt.a"), z3.ArraySort(z3.IntSort(), t.sort())) for t in terms]
+    ex.assume(z3.And(n >= 0, n <= src.n))
+    body = z3.And(sidx(p) >= 0, sidx(p) < src.n, at(cond, sidx(p)), pos(sidx(p)) == p, *[z3.Select(m, p) == at(t, sidx(p)) for m, t in zip(arrs, terms)])
+    ex.assume(V.qforall([p], z3.Implies(z3.And(p >= 0, p < n), body), patterns=[z3.Select(arrs[0], p), sidx(p)]))
+    ex.assume(V.qforall([p, q], z3.Implies(z3.And(p >= 0, p < q, q < n), sidx(p) < sidx(q)), patterns=[z3.MultiPattern(sidx(p), sidx(q))]))
+    src_pats = [z3.Select(a, j) for a in arrs_of(src) if z3.is_const(a)]
+    ex.assume(V.qforall([j], z3.Implies(z3.And(j >= 0, j < src.n, at(cond, j)), z3.And(pos(j) >= 0, pos(j) < n, sidx(pos(j)) == j)), patterns=[pos(j)] + src_pats))
+    r = mk_seq(shape, arrs, n)
+    r.filter_of = (src, sidx, pos, lambda idx: at(cond, idx))
+    return r
+
+
+def quantified_over_set(ex, gen, name):
+    """any(...) / all(body(x) for x in S) where S is a set: a quantifier over the members of S
+    (no enumeration order is involved).  Returns None when the source is not a set."""
+    from .engine import Env
+
+    node = gen.node
+    if len(node.generators) != 1 or node.generators[0].ifs or not isinstance(node.generators[0].target, ast.Name):
+        return None
+    g = node.generators[0]
+    saved = ex.env
+    ex.env = gen.env
+    try:
+        src = ex.eval(g.iter)
+        if not isinstance(src, SetV):
+            return None
+        x = z3.Const(fresh_name("qx"), key_sort(src.shape))
+        ex.env = Env(parent=gen.env)
+        nhyps, ndec = len(ex.hyps), ex.dpos
+        ex.in_comprehension += 1
+        try:
+            ex.assign(g.target, x)
+            body = ex.truth(ex.eval(node.elt))
+        finally:
+            ex.in_comprehension -= 1
+        if ex.dpos != ndec:
+            raise Unsupported("quantified body branches on symbolic data")
+        facts = [f for f in ex.hyps[nhyps:] if f.get_id() not in ex.fresh_facts]
+        if any(x.get_id() in {t.get_id() for t in _consts_of(f)} for f in facts):
+            raise Unsupported("facts about the bound variable assumed inside any()/all() over a set")
+    finally:
+        ex.env = saved
+    inside = z3.Select(src.arr, x)
+    return z3.Exists([x], z3.And(inside, body)) if name == "any" else V.qforall([x], z3.Implies(inside, body))
+
+
+def _mentions(f, c):
+    return c.get_id() in {t.get_id() for t in _consts_of(f)}
+
+
+def _consts_of(f):
+    out, seen, stack = [], set(), [f]
+    while stack:
+        t = stack.pop()
+        if t.get_id() in seen:
+            continue
+        seen.add(t.get_id())
+        if z3.is_const(t) and t.decl().kind() == z3.Z3_OP_UNINTERPRETED:
+            out.append(t)
+        if z3.is_app(t):
+            stack.extend(t.children())
+        elif z3.is_quantifier(t):
+            stack.append(t.body())
+    return out
 
 
 def dict_comprehension(ex, node):
@@ -261,6 +348,7 @@ def dict_comprehension(ex, node):
     saved = ex.env
     ex.env = Env(parent=saved)
     nhyps, ndec = len(ex.hyps), ex.dpos
+    done0, mat0 = set(ex.seq_mem_done), dict(ex.materialized)
     ex.in_comprehension += 1
     try:
         ex.assume(z3.And(k >= 0, k < src.n))
@@ -269,12 +357,23 @@ def dict_comprehension(ex, node):
         val = ex.eval(node.value)
         if ex.dpos != ndec:
             raise Unsupported("dict comprehension body branches on symbolic data")
+        et = getattr(ex, "expected_type", None)
+        from . import types as T_
+        from .engine import EmptySeq as _ES
+        if isinstance(val, EmptySet) and isinstance(et, T_.MAP) and isinstance(et.val, T_.SET):
+            val = empty_set(et.val.elem.shape())
+        elif isinstance(val, _ES) and isinstance(et, T_.MAP) and isinstance(et.val, T_.SEQ):
+            val = empty_seq(et.val.elem.shape())
         body_facts = ex.hyps[nhyps + 1:]
         range_fact = ex.hyps[nhyps]
         del ex.hyps[nhyps:]
         for f in [f for f in body_facts if f.get_id() in ex.fresh_facts]:
             ex.assume(f, fresh=True)
         body_facts = [f for f in body_facts if f.get_id() not in ex.fresh_facts]
+        for f in [f for f in body_facts if not _mentions(f, k)]:
+            ex.assume(z3.Implies(src.n > 0, f))
+        ex.seq_mem_done, ex.materialized = set(done0), dict(mat0)
+        body_facts = [f for f in body_facts if _mentions(f, k)]
         if body_facts:
             ex.assume(V.qforall([k], z3.Implies(range_fact, z3.And(*body_facts))))
     finally:
@@ -448,7 +547,15 @@ def call_builtin(ex, name, args, kw, node):
         (x,) = args
         if isinstance(x, Tup):
             return x if name == "tuple" else to_seq(ex, x)
-        return to_seq(ex, x, node)
+        r = to_seq(ex, x, node)
+        if getattr(r, "owner", None) is not None:
+            # list(param) / tuple(param) is a NEW container with the same items
+            r2 = SeqV(r.shape, r.arr, r.n)
+            for a_ in ("is_ndarray", "strictly_increasing", "range", "enum_of"):
+                if hasattr(r, a_):
+                    setattr(r2, a_, getattr(r, a_))
+            return r2
+        return r
     if name == "np.array":
         (x,) = args
         r = to_seq(ex, x, node)
@@ -502,6 +609,10 @@ def call_builtin(ex, name, args, kw, node):
         q = to_seq(ex, args[0], node)
         i = z3.Const(fresh_name("rv"), z3.IntSort())
         return mk_seq(q.shape, [z3.Lambda([i], z3.Select(a, q.n - 1 - i)) for a in arrs_of(q)], q.n)
+    if name in ("any", "all") and isinstance(args[0], GenExp):
+        r = quantified_over_set(ex, args[0], name)
+        if r is not None:
+            return r
     if name in ("any", "all"):
         q = to_seq(ex, args[0], node)
         (a,) = arrs_of(q)
@@ -513,6 +624,11 @@ def call_builtin(ex, name, args, kw, node):
     if name == "dict":
         if not args and not kw:
             return EmptyDict()
+        if len(args) == 1 and not kw and isinstance(args[0], KwDict):
+            return KwDict(dict(args[0].items))  # a copy of the keyword-argument dict
+        if len(args) == 1 and not kw and isinstance(args[0], MapV):
+            m = args[0]
+            return MapV(m.kshape, m.vshape, m.dom, m.val, m.keys)
         raise Unsupported("dict(...) with arguments")
     if name == "str":
         return StrV("<str()>")
@@ -536,6 +652,13 @@ def call_builtin(ex, name, args, kw, node):
         if isinstance(a, StrV) and not isinstance(x, ObjV):
             return z3.BoolVal(False)
         raise Unsupported("hasattr with a computed name")
+    if name == "getattr" and isinstance(args[0], MapV) and len(args) == 2:
+        # an object's attribute namespace modelled as a finite map name -> value
+        return ex.load_index(args[0], args[1], node)
+    if name == "setattr" and isinstance(args[0], MapV):
+        x, a, v = args
+        ex.assign(node.args[0], ex.store_index(x, a, v), mutate=True)
+        return NONE
     if name == "getattr":
         x, a = args[0], args[1]
         if isinstance(x, ObjV) and isinstance(a, StrV) and a.s in ex.prop.fields:
@@ -636,6 +759,30 @@ def call_builtin_method(ex, recv, name, args, kw, node):
             i = z3.Const(fresh_name("xi"), z3.IntSort())
             arrs = [z3.Lambda([i], z3.If(i < recv.n, z3.Select(a, i), z3.Select(b, i - recv.n))) for a, b in zip(arrs_of(recv), arrs_of(other))]
             return rebind(mk_seq(recv.shape, arrs, recv.n + other.n))
+        if name == "remove":
+            # list.remove(x): deletes the FIRST item equal to x; ValueError if there is none
+            (x,) = args
+            recv = ex.materialize(recv)
+            if not ex.decide(ex.contains(recv, x, node)):
+                raise RaiseEx("ValueError", ex.cur_line)
+            p = z3.Const(fresh_name("rm.at"), z3.IntSort())
+            i = z3.Const(fresh_name("rm.i"), z3.IntSort())
+            ex.assume(z3.And(p >= 0, p < recv.n, ex.equal(recv.get(p), x)))
+            ex.assume(V.qforall([i], z3.Implies(z3.And(i >= 0, i < p), z3.Not(ex.equal(recv.get(i), x)))))
+            arrs = []
+            for a in arrs_of(recv):
+                m = z3.Const(fresh_name("rm.a"), a.sort())
+                ex.assume(V.qforall([i], z3.Select(m, i) == z3.If(i < p, z3.Select(a, i), z3.Select(a, i + 1)), patterns=[z3.Select(m, i)]))
+                arrs.append(m)
+                # bridge for E-matching (content-free, see Exec.trigger): an item old[j] is new[j] or
+                # new[j - 1]; an item new[j] is old[j] or old[j + 1]
+                tr = z3.Function("vf_trigger." + str(a.sort().range()), a.sort().range(), z3.BoolSort())
+                if z3.is_const(a) or z3.is_app(a):
+                    ex.assume(V.qforall([i], z3.And(tr(z3.Select(m, i)), tr(z3.Select(m, i - 1))), patterns=[z3.Select(a, i)]))
+                    ex.assume(V.qforall([i], z3.And(tr(z3.Select(a, i)), tr(z3.Select(a, i + 1))), patterns=[z3.Select(m, i)]))
+            new = mk_seq(recv.shape, arrs, recv.n - 1)
+            new.removed_at = (recv, p)
+            return rebind(new)
         if name == "pop" and not args:
             if not ex.decide(recv.n > 0):
                 raise RaiseEx("IndexError", ex.cur_line)
@@ -672,7 +819,7 @@ def call_builtin_method(ex, recv, name, args, kw, node):
                 return ex.map_get(recv, k)
             return dflt
         if name == "copy":
-            return recv
+            return MapV(recv.kshape, recv.vshape, recv.dom, recv.val, recv.keys)  # a new dict with the same content
         if name == "items":
             keys = recv.keys
             if keys is None:
@@ -690,4 +837,7 @@ def call_builtin_method(ex, recv, name, args, kw, node):
             (ka,) = arrs_of(keys)
             vals = recv.val if isinstance(recv.val, (list, tuple)) else [recv.val]
             return mk_seq(recv.vshape, [z3.Lambda([i], z3.Select(va, z3.Select(ka, i))) for va in vals], keys.n)
+    c = ex.prop.lookup_method(None, name, ex.relfile)
+    if c is not None and c.external:
+        return ex.call_contract(c, [recv] + list(args), kw, node)
     raise Unsupported(f"method .{name} on {type(recv).__name__}")
